@@ -156,11 +156,20 @@ FirstBadCap(obs, exp, k) ==
   ELSE IF ~CapPositionOk(obs[k], exp[k]) THEN "CaptionPositionWrong"
   ELSE FirstBadCap(obs, exp, k + 1)
 
+\* rec.other (optional): what the reader returns for the same program with its control codes sent
+\* the other way (single <-> doubled); redundancy must not change what is read
+NoTimes(caps) == [k \in 1..Len(caps) |-> [x32 |-> caps[k].x32, y15 |-> caps[k].y15, nodes |-> caps[k].nodes]]
+SameEitherWay(rec) ==
+  \/ "other" \notin DOMAIN rec
+  \/ (~rec.other.ok /\ rec.other.err = "CaptionReadTimingError")   \* durations do depend on the word count
+  \/ (rec.other.ok /\ NoTimes(rec.other.caps) = NoTimes(rec.obs.caps))
 VerdictPopOn(rec) ==
   LET exp == ExpectCaps(Run(rec.prog).ev) IN
   IF ~rec.obs.ok THEN "WellFormedStreamRefused"
   ELSE IF Len(rec.obs.caps) # Len(exp) THEN "CaptionCountDiffersFromDecoder"
-  ELSE FirstBadCap(rec.obs.caps, exp, 1)
+  ELSE LET v == FirstBadCap(rec.obs.caps, exp, 1) IN
+       IF v # "ok" THEN v
+       ELSE IF ~SameEitherWay(rec) THEN "SingleAndDoubledCodesReadDifferently" ELSE "ok"
 
 \* known deviation KF-C05-1: the position tracker survives End-Of-Caption.  A caption whose
 \* first row is the previous caption's last row (+0 / +1) may keep the previous caption's
@@ -188,10 +197,10 @@ VerdictPopOnDev(rec) ==
 -----------------------------------------------------------------------------
 (* C06 timing.  Unit: one third of a microsecond.                                  *)
 (* frame f at non-drop timecode lasts f * 1001/30 ms = f * 100100 units, drop-frame *)
-(* f * 100000 units; rec.offset seconds are subtracted, floor at zero               *)
+(* f * 100000 units; rec.offset milliseconds are subtracted, floor at zero               *)
 Instant(f, drop, off) ==
   LET t == MulSmall(FromSmall(f), IF drop THEN 100000 ELSE 100100)
-      o == MulSmall(MulSmall(FromSmall(off), 3000), 1000) IN
+      o == MulSmall(FromSmall(off), 3000) IN      \* off in milliseconds (offsets need not be whole seconds)
   IF Leq(o, t) THEN Sub(t, o) ELSE <<>>
 FiveFrames(drop) == FromSmall(5 * (IF drop THEN 100000 ELSE 100100))
 FourSeconds3 == FromSmall(12000000)
